@@ -607,15 +607,294 @@ def r14_mapped_names_unique_and_zero_skip(idx, r):
                   msg=f"a nuclide is left alone when `{norm(x.test)}`: small but non-zero densities are no longer rescaled, so re-meshing with mass conservation changes their atom count by the height ratio")
 
 
+class _Arr:
+    """The fragment of numpy that tolerance averaging uses, over exact rationals: 1-D and 2-D arrays, broadcasting of a row or a scalar over
+    the rows, reductions along an axis, selection of rows by a boolean mask.  Anything else is an AnalysisError, never a verdict."""
+
+    def __init__(self, data, ncols=None):
+        self.data = [list(x) if isinstance(x, (list, tuple)) else x for x in data]
+        self.ndim = 2 if (ncols is not None or (self.data and isinstance(self.data[0], list))) else 1
+        self.ncols = (ncols if ncols is not None else len(self.data[0])) if self.ndim == 2 else None
+        if self.ndim == 2 and any(not isinstance(x, list) or len(x) != self.ncols for x in self.data):
+            raise AnalysisError("array model: ragged rows")
+
+    @staticmethod
+    def of(v):
+        from fractions import Fraction
+        if isinstance(v, _Arr):
+            return _Arr(v.data, v.ncols)
+
+        def num(x):
+            return Fraction(x) if isinstance(x, int) and not isinstance(x, bool) else x
+        if isinstance(v, (list, tuple)):
+            return _Arr([[num(y) for y in (x.data if isinstance(x, _Arr) else x)] if isinstance(x, (list, tuple, _Arr)) else num(x) for x in v])
+        raise AnalysisError("array model: np.array of a value that is not a sequence")
+
+    @property
+    def size(self):
+        return len(self.data) * self.ncols if self.ndim == 2 else len(self.data)
+
+    @property
+    def shape(self):
+        return (len(self.data), self.ncols) if self.ndim == 2 else (len(self.data),)
+
+    def __len__(self):
+        return len(self.data)
+
+    def __bool__(self):
+        raise AnalysisError("array model: the truth value of an array is ambiguous")
+
+    def map(self, fn):
+        return _Arr([[fn(x) for x in row] for row in self.data], self.ncols) if self.ndim == 2 else _Arr([fn(x) for x in self.data])
+
+    @staticmethod
+    def zip(a, b, fn):
+        def f(x, y):
+            try:
+                return fn(x, y)
+            except ZeroDivisionError:
+                raise AnalysisError("array model: division by zero")
+        if not isinstance(a, _Arr):
+            return b.map(lambda y: f(a, y))
+        if not isinstance(b, _Arr):
+            return a.map(lambda x: f(x, b))
+        if a.ndim == b.ndim and a.shape == b.shape:
+            if a.ndim == 1:
+                return _Arr([f(x, y) for x, y in zip(a.data, b.data)])
+            return _Arr([[f(x, y) for x, y in zip(ra, rb)] for ra, rb in zip(a.data, b.data)], a.ncols)
+        if a.ndim == 2 and b.ndim == 1 and len(b.data) == a.ncols:
+            return _Arr([[f(x, y) for x, y in zip(ra, b.data)] for ra in a.data], a.ncols)
+        if a.ndim == 1 and b.ndim == 2 and len(a.data) == b.ncols:
+            return _Arr([[f(x, y) for x, y in zip(a.data, rb)] for rb in b.data], b.ncols)
+        raise AnalysisError(f"array model: shapes {a.shape} and {b.shape} do not broadcast")
+
+    def reduce(self, kind, axis):
+        from fractions import Fraction
+
+        def red(xs):
+            xs = list(xs)
+            if kind == "all":
+                return all(bool(x) for x in xs)
+            if kind == "any":
+                return any(bool(x) for x in xs)
+            tot = sum((Fraction(int(x)) if isinstance(x, bool) else x for x in xs), Fraction(0))
+            if kind == "sum":
+                return tot
+            return tot / len(xs) if xs else float("nan")  # numpy: mean of nothing is nan (with a warning)
+        if axis is None:
+            return red(x for row in self.data for x in row) if self.ndim == 2 else red(self.data)
+        if self.ndim == 2 and axis in (0, -2):
+            return _Arr([red(row[j] for row in self.data) for j in range(self.ncols)])
+        if self.ndim == 2 and axis in (1, -1):
+            return _Arr([red(row) for row in self.data])
+        if self.ndim == 1 and axis in (0, -1):
+            return red(self.data)
+        raise AnalysisError(f"array model: axis {axis} of a {self.ndim}-D array")
+
+    def select(self, key):
+        if isinstance(key, _Arr) and key.ndim == 1 and all(isinstance(x, bool) for x in key.data):
+            if len(key.data) != len(self.data):
+                raise AnalysisError("array model: boolean mask of another length")
+            return _Arr([x for x, k in zip(self.data, key.data) if k], self.ncols)
+        if isinstance(key, int) and not isinstance(key, bool) and -len(self.data) <= key < len(self.data):
+            return _Arr(self.data[key]) if self.ndim == 2 else self.data[key]
+        raise AnalysisError("array model: subscript that is neither a boolean row mask nor an index")
+
+
+def _array_eval():
+    """MiniEval extended by the array model above (np.array / abs / mean / sum / all / any / size / mask selection / arithmetic and comparisons
+    with broadcasting) and by exact rational scalars."""
+    import numbers
+    import operator
+    from ..minieval import MiniEval
+
+    arith = {ast.Add: operator.add, ast.Sub: operator.sub, ast.Mult: operator.mul, ast.Div: operator.truediv}
+    comp = {ast.Lt: operator.lt, ast.LtE: operator.le, ast.Gt: operator.gt, ast.GtE: operator.ge, ast.Eq: operator.eq, ast.NotEq: operator.ne}
+
+    def real(x):
+        return isinstance(x, numbers.Real) and not isinstance(x, bool)
+
+    class _E(MiniEval):
+        def _try(self, e, env):
+            try:
+                return self._ev(e, env)
+            except AnalysisError:
+                return None
+
+        def _axis(self, e, env, first):
+            ax = get_arg(e, first, "axis")
+            extra = [k.arg for k in e.keywords if k.arg != "axis"] or e.args[first + 1:]
+            if extra:
+                raise AnalysisError(f"array model: `{norm(e)[:60]}` has arguments outside the fragment")
+            return None if ax is None else self._ev(ax, env)
+
+        def _ev(self, e, env):
+            if isinstance(e, ast.Call):
+                d = dotted(e.func) or ""
+                mod, _, fn = d.rpartition(".")
+                if mod in ("np", "numpy") and fn in ("array", "asarray", "asanyarray") and len(e.args) == 1 and not e.keywords:
+                    return _Arr.of(self._ev(e.args[0], env))
+                if (d == "abs" or (mod in ("np", "numpy") and fn in ("abs", "absolute", "fabs"))) and len(e.args) == 1 and not e.keywords:
+                    v = self._ev(e.args[0], env)
+                    if isinstance(v, _Arr):
+                        return v.map(abs)
+                    if real(v):
+                        return abs(v)
+                if d == "len" and len(e.args) == 1 and not e.keywords:
+                    v = self._try(e.args[0], env)
+                    if isinstance(v, _Arr):
+                        return len(v)
+                if mod in ("np", "numpy") and fn in ("mean", "average", "sum", "all", "any") and e.args:
+                    v = self._ev(e.args[0], env)
+                    if isinstance(v, _Arr):
+                        return v.reduce({"average": "mean"}.get(fn, fn), self._axis(e, env, 1))
+                if isinstance(e.func, ast.Attribute) and e.func.attr in ("mean", "sum", "all", "any", "copy"):
+                    v = self._try(e.func.value, env)
+                    if isinstance(v, _Arr):
+                        return _Arr.of(v) if e.func.attr == "copy" else v.reduce(e.func.attr, self._axis(e, env, 0))
+            elif isinstance(e, ast.Attribute) and e.attr in ("size", "shape", "ndim"):
+                v = self._try(e.value, env)
+                if isinstance(v, _Arr):
+                    return getattr(v, e.attr)
+            elif isinstance(e, ast.Subscript):
+                v = self._try(e.value, env)
+                if isinstance(v, _Arr):
+                    if isinstance(e.slice, ast.Slice):
+                        raise AnalysisError("array model: slice of an array")
+                    return v.select(self._ev(e.slice, env))
+            elif isinstance(e, ast.BinOp) and type(e.op) in arith:
+                a, b = self._ev(e.left, env), self._ev(e.right, env)
+                if isinstance(a, _Arr) or isinstance(b, _Arr):
+                    return _Arr.zip(a, b, arith[type(e.op)])
+                if real(a) and real(b):
+                    try:
+                        return arith[type(e.op)](a, b)
+                    except ZeroDivisionError:
+                        raise AnalysisError("array model: division by zero")
+            elif isinstance(e, ast.UnaryOp) and isinstance(e.op, (ast.Invert, ast.USub)):
+                v = self._ev(e.operand, env)
+                if isinstance(v, _Arr):
+                    return v.map(operator.not_ if isinstance(e.op, ast.Invert) else operator.neg)
+            elif isinstance(e, ast.Compare) and len(e.ops) == 1 and type(e.ops[0]) in comp:
+                a, b = self._ev(e.left, env), self._ev(e.comparators[0], env)
+                if isinstance(a, _Arr) or isinstance(b, _Arr):
+                    return _Arr.zip(a, b, lambda x, y: bool(comp[type(e.ops[0])](x, y)))
+                if real(a) and real(b):
+                    return bool(comp[type(e.ops[0])](a, b))
+            return super()._ev(e, env)
+    return _E(skip_calls=("runLog.",))
+
+
+def r15_tolerance_average(idx, r):
+    """The axial mesh that common-mesh generation starts from (UniformMeshGenerator._computeAverageAxialMesh) and the core's reference mesh
+    (Core.updateAxialMesh) are `average1DWithinTolerance` of the assemblies' meshes.  The function is EVALUATED (MiniEval + an exact model of the
+    numpy fragment it uses) on sets of candidate meshes with none, one, two and three tiers of outliers, in every column or in one, above and
+    below, for the tolerances its users pass.  Independent statement of the result, for EVERY input: it is the mean of SOME non-empty set of
+    candidate meshes that all lie within the tolerance of it - no mesh farther than the tolerance from the answer contributed to the answer -
+    and when all candidates already agree with their mean, it is that mean.  Where no such answer exists the function fails loudly."""
+    from fractions import Fraction as Fr
+    from itertools import combinations
+    from ..minieval import Raised
+
+    f = idx.func("armi.utils.mathematics.average1DWithinTolerance")
+    ps = f.params()
+    if len(ps) != 2 or len(f.node.args.defaults) != 1:
+        raise AnalysisError("average1DWithinTolerance: (values, tolerance=<default>) expected")
+
+    def rational(node):
+        if not (isinstance(node, ast.Constant) and isinstance(node.value, (int, float)) and not isinstance(node.value, bool)):
+            return None
+        return Fr(repr(node.value))
+    default = rational(f.node.args.defaults[0])
+    if default is None:
+        raise AnalysisError("average1DWithinTolerance: the default tolerance is not a number")
+
+    # the users: which tolerances reach the function
+    tols = {}
+    for m in idx.modules.values():
+        if not m.name.startswith("armi.") or ".tests" in m.name:
+            continue
+        for g in m.all_funcs():
+            for c in iter_calls(g.node):
+                if (dotted(c.func) or "").rpartition(".")[2] != "average1DWithinTolerance":
+                    continue
+                tn = get_arg(c, 1, ps[1])
+                t = default if tn is None else rational(tn)
+                if t is None:
+                    r.undecided(f"{g.qualname}:tolerance-evaluated", g, f"`{norm(tn)}` is not a literal: the averaging is evaluated for the default tolerance only", node=c)
+                    continue
+                tols.setdefault(t, []).append((g, c))
+    if sum(len(v) for v in tols.values()) < 2:
+        raise AnchorMissing("users of average1DWithinTolerance (common-mesh generation, Core.updateAxialMesh)")
+
+    base = [Fr(100), Fr(200), Fr(300)]
+
+    def mesh(*factors):
+        fs = [Fr(x) for x in factors] * (3 if len(factors) == 1 else 1)
+        return [b * k for b, k in zip(base, fs)]
+
+    def cases(t):
+        """candidate meshes built from the tolerance t: `mild` outliers are 1.25 t off, so they pass while a grosser one skews the mean"""
+        up, up2, dn = 1 + t * Fr(5, 4), 1 + t * Fr(7, 4), 1 - t * Fr(5, 4)
+        return [
+            ("identical meshes", [mesh(1)] * 4),
+            ("all meshes agree with their mean", [mesh(1), mesh(1 + t / 10), mesh(1 - t / 10), mesh(1 + t / 4)]),
+            ("one gross outlier", [mesh(1)] * 6 + [mesh(1 + 5 * t)]),
+            ("two tiers of outliers", [mesh(1)] * 6 + [mesh(up), mesh(1 + 5 * t)]),
+            ("three tiers of outliers", [mesh(1)] * 8 + [mesh(up), mesh(up2), mesh(1 + 5 * t)]),
+            ("two tiers of outliers below", [mesh(1)] * 6 + [mesh(dn), mesh(1 - Fr(9, 2) * t)]),
+            ("two tiers of outliers in one column", [mesh(1)] * 6 + [mesh(1, 1, up), mesh(1, 1, 1 + 5 * t)]),
+            ("no two meshes agree", [mesh(1), mesh(1 + 10 * t)]),
+        ]
+
+    def mean(rows):
+        return [sum(col, Fr(0)) / len(rows) for col in zip(*rows)]
+
+    def close(a, b):
+        return all((x == y) if isinstance(x, Fr) and isinstance(y, Fr) else (x == x and abs(x - y) <= 1e-9 * abs(y)) for x, y in zip(a, b))
+
+    def show(v):
+        return "[" + ", ".join(f"{float(x):.6g}" for x in v) + "]"
+
+    for t in sorted(tols):
+        users = ", ".join(sorted({g.qualname for g, _c in tols[t]}))
+        for g, c in tols[t]:
+            r.ok(f"{g.qualname}:tolerance-evaluated", g, node=c)
+        for name, rows in cases(t):
+            key = f"average1DWithinTolerance:tolerance={float(t):g}:{name}"
+            every = mean(rows)
+            agree = all(abs(x - m) <= t * m for row in rows for x, m in zip(row, every))
+            try:
+                got, _ = _array_eval().run(f.node, {ps[0]: [list(row) for row in rows], ps[1]: t})
+            except Raised as ex:
+                # a loud failure is an answer only where the candidates do not agree with their mean
+                r.require(not agree, key, f, msg=f"tolerance {float(t):g}, {name} ({len(rows)} meshes, used by {users}): raises `{ex}` although every mesh is within the tolerance of the mean")
+                continue
+            if not (isinstance(got, _Arr) and got.ndim == 1 and len(got.data) == len(base)):
+                r.violate(key, f, f"tolerance {float(t):g}, {name}: the result is not one averaged mesh ({type(got).__name__})")
+                continue
+            res = got.data
+            within = [row for row in rows if all(abs(x - m) <= t * m for x, m in zip(row, res))]
+            if agree:
+                r.require(close(res, every), key, f, msg=f"tolerance {float(t):g}, {name} (used by {users}): every candidate mesh is within the tolerance of the mean {show(every)}, "
+                          f"yet {show(res)} is returned: a profile all assemblies share does not stay what it is")
+                continue
+            ok = any(close(res, mean(list(sub))) for k in range(1, len(within) + 1) for sub in combinations(within, k))
+            r.require(ok, key, f, msg=f"tolerance {float(t):g}, {name} ({len(rows)} candidate meshes {', '.join(sorted({show(x) for x in rows}))}; used by {users}): returns {show(res)}, which is not "
+                      f"the mean of any set of candidates lying within the tolerance of it ({len(within)} of them do): a mesh that is farther than the tolerance from the answer contributed to it, so "
+                      "one distorted assembly shifts the common mesh of the whole core - outliers must be rejected again after every re-averaging, until the meshes that remain all agree with their mean")
+
+
 def run(idx, chk):
     chk.explanation = (
         "C11: the two overlap-mapping functions are typed with role generators for overlap / destination / source heights: densities scale by "
         "overlap/destination, volume-integrated parameters by overlap/source, others by overlap/destination, peaks take max, only unset values are "
         "skipped; classification comes from the parameter definitions; getBlocksBetweenElevations' overlap formula and loud sum check; contiguous "
         "construction of the new mesh; the mesh filter returns only after a complete clean scan and only removes non-anchor points; exact rational "
-        "forms of the partial-bin fractions of resampleStepwise. Conservation as numbers and the averaging of candidate meshes are NOT decided."
+        "forms of the partial-bin fractions of resampleStepwise; average1DWithinTolerance is evaluated on candidate meshes with up to three tiers of outliers "
+        "(its answer is the mean of candidates that all agree with it). Conservation as numbers and the choice of candidate mesh points are NOT decided."
     )
-    chk.undecided_clauses = ["atom conservation as numbers", "average1DWithinTolerance / choice of candidate mesh points"]
+    chk.undecided_clauses = ["atom conservation as numbers", "choice of candidate mesh points (average1DWithinTolerance is decided on the evaluated inputs only)"]
     chk.run_rule("R11.1", "overlap scalings: N x overlap/destination; vol-integrated x overlap/source; others x overlap/destination; peak = max; only None skipped", lambda r: r1_roles(idx, r), floor=12,
                  necessary="atoms and integrated totals are conserved, other quantities are height-weighted means")
     chk.run_rule("R11.1b", "height changes with mass conservation scale densities by old height / new height", lambda r: r1b_height_ratios(idx, r), floor=5, necessary="N' h' = N h")
@@ -644,3 +923,7 @@ def run(idx, chk):
                  necessary="block quantities used by the mappers are sums over the components")
     chk.run_rule("R11.14", "mapped parameter names are de-duplicated; adjustDensity skips only zero densities", lambda r: r14_mapped_names_unique_and_zero_skip(idx, r), floor=3,
                  necessary="integral quantities and atoms of every nuclide are conserved by the mapping")
+    chk.run_rule("R11.15", "average1DWithinTolerance, evaluated on candidate meshes with 0-3 tiers of outliers: the answer is the mean of candidates that all lie within the tolerance of it",
+                 lambda r: r15_tolerance_average(idx, r), floor=10,
+                 necessary="the candidate points of the common mesh are the average of the assembly meshes that agree with it: an assembly mesh farther than the tolerance from the answer does not "
+                           "shift the mesh every assembly is mapped onto (a profile all assemblies share stays what it is), or the averaging fails loudly")
